@@ -186,6 +186,13 @@ def gen_C16(tier, rng):
         k = len(ins)
         ins += [("op", ("scale", 1.0), [1]), ("backward", k, None), ("eq", k, 0), ("eq", 1, 0),
                 ("op", ("reshape", s), [0]), ("eq", k + 4, 1)]
+        # arrays that share one buffer: a clone (equal) and reshaped views under other dimensions (not equal)
+        ins.append(("clone", 0))
+        ins.append(("eq", 0, len(ins) - 1))
+        for t in rng.sample(alts, min(2, len(alts))):
+            ins.append(("op", ("reshape", t), [0]))
+            ins.append(("eq", 0, len(ins) - 1))
+            ins.append(("eq", len(ins) - 2, 1))
         cases.append(case("eq", ins, "equality"))
     if tier == "thorough":
         for _ in range(400):
@@ -1843,10 +1850,10 @@ def model_case(rng, tier):
             nin, nout = sizes[j], sizes[j + 1]
             layers.append(("dense", nin, nout, act, [rng.uniform(-1, 1) for _ in range(nin * nout)],
                            [rng.uniform(-0.5, 0.5) for _ in range(nout)]))
-        batch = rng.choice([[], [1], [3], [2], [2, 2]])
+        batch = rng.choice([[], [1], [3], [2], [2, 2], [2, 3], [3, 2], [1, 3]])
         in_dims = batch + [sizes[0]]
     else:
-        cost = "mse"
+        cost = rng.choice(["mse", "mse", "ce"])
         depth = rng.randint(1, 2)
         rows, cols = rng.randint(3, 5), rng.randint(3, 5)
         n_layers = rng.randint(1, 2)
@@ -1858,6 +1865,8 @@ def model_case(rng, tier):
             sr, sc = rng.randint(1, 2), rng.randint(1, 2)
             count = rng.randint(1, 2)
             act = rng.choice(["none", "relu", "sigmoid"])
+            if cost == "ce" and j == n_layers - 1:
+                act = "sigmoid"      # cross-entropy needs positive outputs
             layers.append(("convl", (count, d, fr, fc), (sr, sc), act,
                            [rng.uniform(-1, 1) for _ in range(count * d * fr * fc)],
                            [rng.uniform(-0.5, 0.5) for _ in range(count)]))
@@ -1884,6 +1893,8 @@ def model_case(rng, tier):
             for r_ in range(prod(out_dims) // n):
                 hot = rng.randrange(n)
                 t += [1.0 if q == hot else 0.0 for q in range(n)]
+            if kind == "conv":
+                t = [rng.choice([0.0, 1.0, 0.5]) for _ in range(prod(out_dims))]
         else:
             t = [rng.uniform(-1, 1) for _ in range(prod(out_dims))]
         ins.append(("leaf", False, out_dims, t))
